@@ -492,53 +492,49 @@ def fold_new_helpers(prog, rounds=3):
                 if plain(h.d["qname"]) in known or h.d.get("virtual") or h.name.startswith("operator"):
                     continue
                 ss = sites.get(h.usr, [])
-                # one call site - or the same call site in several instantiations of one template
-                if not ss or any(x[1] < 0 for x in ss) or len({(x[0].pq, x[0].line, x[1]) for x in ss}) != 1:
+                # one call site - or the same call site in several instantiations of one template - or a SMALL helper with a few call
+                # sites (a block that two functions shared was given a name): every call site receives its own copy of the body
+                if not ss or any(x[1] < 0 for x in ss):
+                    continue
+                if len({(x[0].pq, x[0].line, x[1]) for x in ss}) != 1 and (len(ss) > 4 or len(h.nodes) > 120 or h.kind != "function" and h.kind != "method"):
                     continue
             if any(g_ is h or g_.usr == h.usr for g_, _ in ss):
                 continue
-            for g, c in ss[1:]:
-                snap_ = (copy.deepcopy(g.nodes), copy.deepcopy(g.cfg), copy.deepcopy(g.d.get("tries", [])))
-                try:
-                    if not _fold(prog, g, c, h):
-                        raise ValueError("shape")
-                except Exception:
-                    g.nodes[:] = snap_[0]
-                    g.cfg[:] = snap_[1]
-                    g.d["tries"] = snap_[2]
-                    g.blocks = {b["id"]: b for b in g.cfg}
-                    g._parent = g._pos = g._dup = None
-                    ss = []
-                    break
-            if not ss:
-                continue
-            g, c = ss[0]
-            # helpers that call other new helpers are folded inner-first: wait until this one calls no foldable function
-            snap = (copy.deepcopy(g.nodes), copy.deepcopy(g.cfg), copy.deepcopy(g.d.get("tries", [])), set(prog.fns))
+            involved = []
+            for g_, _ in ss:
+                if all(g_ is not x for x in involved):
+                    involved.append(g_)
+            snaps_ = [(g_, copy.deepcopy(g_.nodes), copy.deepcopy(g_.cfg), copy.deepcopy(g_.d.get("tries", [])), list(g_.d.get("inlined", []))) for g_ in involved]
+            fns_before = set(prog.fns)
+            descs = []
             try:
-                r = _fold(prog, g, c, h)
+                for g, c in ss:
+                    r = _fold(prog, g, c, h)
+                    if not r:
+                        raise ValueError("shape")
+                    descs.append(r)
             except Exception as ex:      # never let the normalisation take the analysis down: the helper simply stays a call
-                r = None
-                g.nodes[:] = snap[0]
-                g.cfg[:] = snap[1]
-                g.d["tries"] = snap[2]
-                for u in set(prog.fns) - snap[3]:
+                for g_, n_, c_, t_, inl_ in snaps_:
+                    g_.nodes[:] = n_
+                    g_.cfg[:] = c_
+                    g_.d["tries"] = t_
+                    g_.d["inlined"] = inl_
+                    g_.blocks = {b["id"]: b for b in g_.cfg}
+                    g_._parent = g_._pos = g_._dup = None
+                for u in set(prog.fns) - fns_before:
                     del prog.fns[u]
-                g.blocks = {b["id"]: b for b in g.cfg}
-                g._parent = g._pos = g._dup = None
-                if h.pq in g.d.get("inlined", []):
-                    g.d["inlined"].remove(h.pq)
-                done.append("(fold of %s into %s abandoned: %s %s)" % (h.pq, g.pq, type(ex).__name__, ex))
-            if r:
-                h.d["inlined_into"] = g.usr
-                done.append(r)
-                changed = True
-                # the helper now lives in its caller; its own definition (and the closures defined in it, of which the caller
-                # received copies) would only be seen twice by rules that scan every function
-                if h.kind != "lambda":
-                    for l in [x for x in prog.fns.values() if x.d.get("parentfn") == h.usr]:
-                        prog.fns.pop(l.usr, None)
-                prog.fns.pop(h.usr, None)
+                if not (isinstance(ex, ValueError) and str(ex) == "shape"):
+                    done.append("(fold of %s abandoned: %s %s)" % (h.pq, type(ex).__name__, ex))
+                continue
+            h.d["inlined_into"] = ss[0][0].usr
+            done.extend(descs)
+            changed = True
+            # the helper now lives in its callers; its own definition (and the closures defined in it, of which the callers
+            # received copies) would only be seen twice by rules that scan every function
+            if h.kind != "lambda":
+                for l in [x for x in prog.fns.values() if x.d.get("parentfn") == h.usr]:
+                    prog.fns.pop(l.usr, None)
+            prog.fns.pop(h.usr, None)
         if not changed:
             break
     return done
